@@ -210,6 +210,8 @@ def main():
                                 f.write(data[: rng.randrange(0, len(data) + 1)])
                             lost.append(["truncated", rel])
                 r["lost"] = lost
+            elif op == "chdir":
+                os.chdir(step["dir"])
             elif op == "rmtree":
                 shutil.rmtree(step["dir"], ignore_errors=True)
             elif op == "copytree":
